@@ -2,7 +2,7 @@
     structs were driven by (through /repo/cmd/cmaf-ingest-receiver/app/verif_hooks_c17.go) and
     must produce the same observation after every operation, including panics and their site. *)
 From Verif Require Import GoSem Recv.
-From Coq Require Import ZifyBool.
+From Coq Require Import ZifyBool Uint63.
 
 Inductive op :=
 | OScAdd (n : Z) | OScDrop (n : Z) | OScResize (w : Z) | OScFullRange (k : Z) | OScNewFull (k m : Z) | OScMin (m : Z)
@@ -10,7 +10,12 @@ Inductive op :=
 | OGAdd (name : Z) (it : item) | OGStart (w : Z) (sh : bool) | OGDrop (n : Z) | OGResize (w : Z) | OGGen (nl : Z)
 | OCRecv (name : Z) (it : item) | OCInit (name : Z).
 
-Inductive obs := ObsOk (l : list Z) | ObsPanic (site : string).
+(** [ObsHash n h]: an observation of [n] numbers given by its polynomial hash (long states) *)
+Inductive obs := ObsOk (l : list Z) | ObsHash (n h : Z) | ObsPanic (site : string).
+
+(** polynomial hash in native 63-bit arithmetic (wraps mod 2^63); the harness computes the same *)
+Definition obs_hash (l : list Z) : Z :=
+  Uint63.to_Z (fold_left (fun acc x => Uint63.add (Uint63.mul acc 1000003%uint63) (Uint63.of_Z (x + 2))) l 0%uint63).
 
 (** kind 0 seqCounters, 1 segDataBuffer, 2 segmentTimelineGenerator, 3 channel *)
 Record c17case := {
@@ -126,6 +131,7 @@ Definition derive_site (s : string) : bool :=
 Definition obs_eqb (a b : obs) : bool :=
   match a, b with
   | ObsOk x, ObsOk y => list_eqb Z.eqb x y
+  | ObsOk x, ObsHash n h => (lenZ x =? n) && (obs_hash x =? h)
   | ObsPanic s, ObsPanic t => String.eqb s t || (derive_site s && derive_site t)
   | _, _ => false
   end.
